@@ -3,6 +3,9 @@
 #ifndef VERIF_COMMON_HPP
 #define VERIF_COMMON_HPP
 #include <new>
+#ifdef VERIF_LEDGER
+#include "ledger.hpp"
+#endif
 #include <cstdio>
 #include <cstdlib>
 #include <cstring>
@@ -68,7 +71,17 @@ template <typename F>
 inline void for_each_line(F f) {
     std::string line;
     while (std::getline(std::cin, line)) {
+#ifdef VERIF_LEDGER
+        // C16: only the ledger verdict of the case is printed: "L:<allocations>:<unknown or double
+        // releases>:<blocks handed out twice>:<blocks still live once every object of the case is gone>"
+        const vfl::Mark m0 = vfl::mark();
+        { std::string ignored = f(line); }
+        const vfl::Mark m1 = vfl::mark();
+        std::string     out = "L:" + std::to_string(m1.allocs - m0.allocs) + ":" + std::to_string(m1.unknown_free - m0.unknown_free) + ":" +
+                          std::to_string(m1.dup_alloc - m0.dup_alloc) + ":" + std::to_string((long long)m1.live - (long long)m0.live);
+#else
         std::string out = f(line);
+#endif
         std::fputs(out.c_str(), stdout);
         std::fputc('\n', stdout);
         std::fflush(stdout);
